@@ -472,7 +472,9 @@ class CellConversion:
             else:
                 new_cell.fillid = universe
             if new_cell.filltr:
-                new_filltr = compose_transform(trnsf, new_cell.filltr)
+                # the FILL transformation places the universe in the lattice
+                # cell; the lattice translation comes on top of it
+                new_filltr = compose_transform(new_cell.filltr, trnsf)
             else:
                 new_filltr = tuple(trnsf)
             # see self.pot_fill(): if TRCL and FILL with a transformation are
